@@ -62,11 +62,15 @@ def make_crystal(rng, kind):
         if kind == "trigonal":
             n = rng.choice(RGROUPS)
             sg = SpaceGroup(n, choice="H")
-            uc = UnitCell.hexagonal(rng.uniform(11, 16), rng.uniform(8, 14))
+            a_h = rng.uniform(11, 16)
+            # c/a = sqrt(3/2) is the hexagonal description of a rhombohedral cell with alpha = 90 degrees (metrically cubic)
+            uc = UnitCell.hexagonal(a_h, a_h * math.sqrt(1.5) if rng.random() < 0.2 else rng.uniform(8, 14))
         else:
             n, uc = rng.choice([(1, "tric"), (2, "tric"), (4, "mono"), (14, "mono"), (19, "ortho"), (33, "ortho"), (62, "ortho"), (76, "tetra"), (143, "hex"), (198, "cubic")])
             sg = SpaceGroup(n)
-            L = lambda lo=6, hi=11: rng.uniform(lo, hi)
+            # large cells too (solvates, frameworks): a 3-fold supercell of a 35 A cell has 105 A edges
+            big = kind == "large" or (kind == "any" and rng.random() < 0.2)
+            L = (lambda lo=6, hi=11: rng.uniform(lo, hi)) if not big else (lambda lo=6, hi=11: rng.uniform(26, 38))
             uc = {"tric": lambda: UnitCell.from_lengths_and_angles([L(), L(), L()], [math.radians(rng.uniform(75, 110)) for _ in range(3)]),
                   "mono": lambda: UnitCell.monoclinic(L(), L(), L(), math.radians(rng.uniform(95, 120))),
                   "ortho": lambda: UnitCell.orthorhombic(L(7, 12), L(7, 12), L(7, 12)), "tetra": lambda: UnitCell.tetragonal(L(8, 12), L(8, 14)),
@@ -80,10 +84,26 @@ def make_crystal(rng, kind):
             z0 = rng.choice([0.0, rng.uniform(0.05, 0.95)]) if (kind == "trigonal" or n == 143) else 0.0
             els = els + [Element[18]]
             frac = np.vstack([frac, [[0.0, 0.0, z0]]])
-        c = Crystal(uc, sg, AsymmetricUnit(els, frac), titl="w")
+        kw = {}
+        if rng.random() < 0.3:
+            # a lone atom on a general position with full, partial or zero occupancy (a placeholder site is still a site)
+            els = els + [Element[36]]
+            far = (o + np.array([3.9, 0.4, 0.3]) @ rot(rng))
+            frac = np.vstack([frac, uc.to_fractional(far[None, :])])
+            occ = [1.0] * (len(els) - 1) + [rng.choice([1.0, 0.5, 0.0])]
+            kw["occupation"] = np.array(occ)
+        c = Crystal(uc, sg, AsymmetricUnit(els, frac, **kw), titl="w")
         try:
             mols = c.unit_cell_molecules()
             if sum(1 for m in mols if len(m) == 3) == len(sg.symmetry_operations) and all(len(m) in (1, 3) for m in mols):
+                if rng.random() < 0.25:
+                    # the same crystal as read from a CIF that also reports a measured density (rounded, as deposited files do)
+                    txt = c.to_cif_string()
+                    key = "_cell_length_a"
+                    txt = txt.replace(key, f"_exptl_crystal_density_diffrn {c.density * (1 + rng.uniform(-2e-3, 2e-3)):.3f}\n_exptl_crystal_density_meas {c.density * 0.97:.2f}\n" + key, 1)
+                    c2 = Crystal.from_cif_string(txt)
+                    if len(c2.unit_cell_atoms()["element"]) == len(c.unit_cell_atoms()["element"]):
+                        return c2
                 return c
         except Exception:  # noqa
             pass
@@ -128,6 +148,11 @@ def check_supercell(c, size, which):
         return f"{which}{size}: cell volume ratio {s.unit_cell.volume() / c.unit_cell.volume()} != {n}"
     if abs(s.density - c.density) > 1e-8 * c.density:
         return f"{which}{size}: density {s.density} != {c.density}"
+    from chmpy.core.element import Element
+    mass = sum(Element[int(z)].mass for z in c.unit_cell_atoms()["element"])
+    rho = mass / c.unit_cell.volume() / 0.6022
+    if abs(c.density - rho) > 1e-8 * rho:
+        return f"density of the original crystal {c.density} is not its cell contents over its cell volume ({rho})"
     r = same_crystal(c, s)
     return f"{which}{size}: {r}" if r else None
 
@@ -198,7 +223,7 @@ def correspond(ctx):
 def judge(seed):
     import random
     rng = random.Random(seed)
-    kind = rng.choice(["super", "super", "trigonal", "oriented", "oriented-back"])
+    kind = rng.choice(["super", "super", "large", "trigonal", "oriented", "oriented-back"])
     if kind == "oriented-back":
         # rhombohedral setting first, molecules looked at THERE, then back to hexagonal axes and expanded
         c = make_crystal(rng, "trigonal")
@@ -219,13 +244,13 @@ def judge(seed):
     if kind == "trigonal":
         c = make_crystal(rng, "trigonal")
         return kind, (check_trigonal(c) if c is not None else None), c is not None
-    c = make_crystal(rng, "trigonal" if kind == "oriented" else "any")
+    c = make_crystal(rng, "trigonal" if kind == "oriented" else ("large" if kind == "large" else "any"))
     if c is None:
         return kind, None, False
     if kind == "oriented":
         c.choose_trigonal_lattice("R")      # the cell is now NOT in the standard orientation
-    size = tuple(rng.randint(1, 3) for _ in range(3))
-    which = rng.choice(["as_P1", "as_P1_supercell", "to_translational_symmetry"])
+    size = tuple(rng.randint(1, 3) for _ in range(3)) if kind != "large" else tuple(rng.choice([3, 3, 2]) for _ in range(3))
+    which = rng.choice(["as_P1", "as_P1_supercell", "to_translational_symmetry"]) if kind != "large" else rng.choice(["as_P1_supercell", "to_translational_symmetry"])
     return kind + ":" + which, check_supercell(c, size, which), len(c.space_group.symmetry_operations) > 1
 
 
